@@ -32,6 +32,13 @@ type Carrier struct {
 	OpName    bool   // can carry an operationName
 	Executes  bool   // a GraphQL request the server is expected to act on
 	APQ       bool   // needs the AutomaticPersistedQuery extension
+
+	// Odd carriers: a non-POST method whose request nevertheless carries a body and a
+	// Content-Type from the request media-type alphabet (see oddCarriers).
+	Odd    bool
+	Method string // HTTP method of an odd carrier
+	ReqCT  string // its Content-Type header ("" = absent)
+	Decoy  bool   // URL carries the case's document, the body a decoy mutation
 }
 
 var carriers = []Carrier{
@@ -55,14 +62,78 @@ var carriers = []Carrier{
 	{Name: "GET-apq-miss", Transport: "GET", GetLike: true, OpName: true, APQ: true},
 }
 
-func carrierByName(n string) Carrier {
-	for _, c := range carriers {
-		if c.Name == n {
-			return c
+// Request media types an odd carrier may announce. The body always matches the announced type
+// (JSON for the json types, for text/plain and when absent; the document text for
+// application/graphql; a JSON body for urlencoded, one of the forms that transport documents;
+// an operations/map form for multipart).
+var reqMediaTypes = []string{
+	"application/json",
+	"application/json; charset=utf-8",
+	"application/graphql+json",
+	"application/graphql+json; charset=utf-8",
+	"application/graphql",
+	"application/x-www-form-urlencoded",
+	"multipart/form-data; boundary=" + boundary,
+	"text/plain",
+	"",
+}
+
+// oddCarriers: for every request media type
+//
+//	GET+body:<ct>    GET, empty query string, body carries the case's document/operationName.
+//	                 Over GET the GraphQL parameters are those of the URL: this request names no
+//	                 document, so nothing may run (whatever the body says).
+//	GET+decoy:<ct>   GET whose URL carries the case's document/operationName (judged exactly like
+//	                 a plain GET) while the body carries a mutation that must never run.
+//	HEAD|PUT|DELETE|PATCH+body:<ct>   body carries the case's document; no resolver may run.
+func oddCarriers() []Carrier {
+	var out []Carrier
+	for _, ct := range reqMediaTypes {
+		label := ct
+		if label == "" {
+			label = "absent"
+		}
+		if i := strings.Index(label, "; boundary"); i > 0 {
+			label = label[:i]
+		}
+		bodyCarriesName := essenceOf(ct) != "application/graphql"
+		out = append(out,
+			Carrier{Name: "GET+body:" + label, Transport: "GET", GetLike: true, OpName: bodyCarriesName, Odd: true, Method: "GET", ReqCT: ct},
+			Carrier{Name: "GET+decoy:" + label, Transport: "GET", GetLike: true, OpName: true, Executes: true, Odd: true, Method: "GET", ReqCT: ct, Decoy: true},
+			Carrier{Name: "HEAD+body:" + label, Transport: "Options", GetLike: true, OpName: bodyCarriesName, Odd: true, Method: "HEAD", ReqCT: ct},
+		)
+		for _, m := range []string{"PUT", "DELETE", "PATCH"} {
+			out = append(out, Carrier{Name: m + "+body:" + label, Transport: "none", OpName: bodyCarriesName, Odd: true, Method: m, ReqCT: ct})
 		}
 	}
-	panic("unknown carrier " + n)
+	return out
 }
+
+func essenceOf(ct string) string {
+	if i := strings.IndexByte(ct, ';'); i >= 0 {
+		ct = ct[:i]
+	}
+	return strings.TrimSpace(ct)
+}
+
+var carrierIndex = func() map[string]Carrier {
+	carriers = append(carriers, oddCarriers()...)
+	m := map[string]Carrier{}
+	for _, c := range carriers {
+		m[c.Name] = c
+	}
+	return m
+}()
+
+func carrierByName(n string) Carrier {
+	c, ok := carrierIndex[n]
+	if !ok {
+		panic("unknown carrier " + n)
+	}
+	return c
+}
+
+const decoyDoc = "mutation Decoy { m(v: 9) }"
 
 // ---- configuration alphabets ------------------------------------------------------------
 
@@ -249,7 +320,38 @@ func sha(s string) string {
 
 const boundary = "verifboundary0123456789"
 
+func multipartBody(doc string, on OpNameChoice) string {
+	var buf bytes.Buffer
+	mw := multipart.NewWriter(&buf)
+	mw.SetBoundary(boundary)
+	mw.WriteField("operations", jsonBody(doc, on, nil))
+	mw.WriteField("map", "{}")
+	mw.Close()
+	return buf.String()
+}
+
+func encodeOdd(c Carrier, doc string, on OpNameChoice) wire {
+	w := wire{Method: c.Method, Target: "/query", ContentType: c.ReqCT}
+	bodyDoc, bodyOn := doc, on
+	if c.Decoy {
+		w.Target = "/query?" + queryString(doc, on, nil)
+		bodyDoc, bodyOn = decoyDoc, OpNameChoice{}
+	}
+	switch essenceOf(c.ReqCT) {
+	case "application/graphql":
+		w.Body = bodyDoc
+	case "multipart/form-data":
+		w.Body = multipartBody(bodyDoc, bodyOn)
+	default:
+		w.Body = jsonBody(bodyDoc, bodyOn, nil)
+	}
+	return w
+}
+
 func encode(c Carrier, doc string, on OpNameChoice) wire {
+	if c.Odd {
+		return encodeOdd(c, doc, on)
+	}
 	switch c.Name {
 	case "GET", "HEAD", "OPTIONS":
 		return wire{Method: c.Name, Target: "/query?" + queryString(doc, on, nil)}
@@ -272,13 +374,7 @@ func encode(c Carrier, doc string, on OpNameChoice) wire {
 	case "GRAPHQL":
 		return wire{Method: "POST", Target: "/query", ContentType: "application/graphql", Body: doc}
 	case "MULTIPART":
-		var buf bytes.Buffer
-		mw := multipart.NewWriter(&buf)
-		mw.SetBoundary(boundary)
-		mw.WriteField("operations", jsonBody(doc, on, nil))
-		mw.WriteField("map", "{}")
-		mw.Close()
-		return wire{Method: "POST", Target: "/query", ContentType: "multipart/form-data; boundary=" + boundary, Body: buf.String()}
+		return wire{Method: "POST", Target: "/query", ContentType: "multipart/form-data; boundary=" + boundary, Body: multipartBody(doc, on)}
 	}
 	panic("no encoding for " + c.Name)
 }
